@@ -1,18 +1,26 @@
 """Contracts for the Python glue of the classic modes: lib/Crypto/Cipher/_mode_ecb.py, _mode_cbc.py, _mode_cfb.py, _mode_ofb.py
-(and, through the same generator, _mode_ctr.py -- see contracts/ctr.py).          Properties C02, C09, C10, C17, C19.
+(and, through the same generators, _mode_ctr.py -- see contracts/ctr.py).          Properties C02, C09, C10, C17, C19.
 
 Layers:
-  native.BlockCipher / native.Mode   abstract native objects (ghost fields g_*) -- the C side of `SmartPointer._raw_pointer`
-  <lib>.<X>_encrypt/_decrypt         assumed contracts of the C entry points; `requires` = the preconditions the C engine
+  native.State                       abstract native objects (ghost fields g_*, contracts/cipher_factory.py) -- what
+                                     `SmartPointer._raw_pointer` points to
+  <lib>.<X>_start_operation          python model (allocates the mode state through the out-parameter); its call-site
+                                     obligations and result code are the ones of src/raw_<mode>.c
+  <lib>.<X>_encrypt/_decrypt/_stop   assumed contracts of the C entry points; `requires` = the preconditions the C engine
                                      proves memory safety and functional correctness under (src/raw_*.c, contracts/c/)
   <X>Mode.encrypt/decrypt            proved on the real source: FSM guard (C10), buffer checks and the exact arguments
                                      handed to C (C17 link), return-code mapping, result / output= (C09), frame (C19),
                                      value == one-shot spec function of everything fed so far (C02, C09)
   <X>Mode.__init__, _create_x_cipher proved: iv attribute == value passed / generated == what the C start function got (C02)
 """
-from vf.pyvc.contracts import Contract, ClassContract
+import z3
+
+from vf.pyvc.contracts import Contract, ClassContract, eval_clause, _as_z3
+from vf.pyvc.values import SBytes, SBool, zbytes, zint, is_intlike, mk_bool
 from .base import base_registry
 from . import rawapi
+from . import cipher_factory as cf
+from .rawapi import val
 
 C = 'Crypto.Cipher.'
 SP = rawapi.SMARTPTR
@@ -25,16 +33,20 @@ MODES = {
     'ofb': ('_mode_ofb', 'OfbMode', 'raw_ofb_lib', 'OFB'),
     'ctr': ('_mode_ctr', 'CtrMode', 'raw_ctr_lib', 'CTR'),
 }
+KIND = cf.KIND
 
 ERR_NOT_ENOUGH_DATA = 3
 ERR_CTR_REPEATED_KEY_STREAM = 0x60002
+TWO64 = 18446744073709551616
 
 SIZE_T = '%s <= 9223372036854775807'        # CPython: len(obj) <= sys.maxsize (rawapi.TRUSTED)
 
 
 def qual(mode, what=''):
     m, cls, _, _ = MODES[mode]
-    return C + m + '.' + (cls + ('.' + what if what else '') if what != '<factory>' else '_create_%s_cipher' % mode)
+    if what == '<factory>':
+        return C + m + '._create_%s_cipher' % mode
+    return C + m + '.' + cls + ('.' + what if what else '')
 
 
 def onefn(mode, op, S, D):
@@ -53,23 +65,7 @@ def onefn(mode, op, S, D):
     raise KeyError(mode)
 
 
-def native_classes(reg):
-    if 'native.BlockCipher' not in reg.classes:
-        reg.add(ClassContract('native.BlockCipher',
-                              fields={'g_alg': 'int[1..6]', 'g_impl': 'int[0..1]', 'g_key': 'bytes', 'g_block_len': 'int[8..16]',
-                                      'g_freed': 'bool', 'g_owned': 'bool'},
-                              valid=['self.g_block_len == 8 or self.g_block_len == 16'], abstract=True,
-                              doc='BlockBase* returned by <cipher>_start_operation: g_owned = handed over to a mode state, '
-                                  'g_freed = released by <cipher>_stop_operation or by the owning mode state'))
-    if 'native.Mode' not in reg.classes:
-        reg.add(ClassContract('native.Mode',
-                              fields={'g_alg': 'int[1..6]', 'g_key': 'bytes', 'g_block_len': 'int[8..16]', 'g_iv': 'bytes',
-                                      'g_seg': 'int[1..16]', 'g_prefix_len': 'int[0..15]', 'g_counter_len': 'int[1..16]', 'g_le': 'bool',
-                                      'g_fed': 'bytes', 'g_dir': 'int[0..2]', 'g_freed': 'bool'},
-                              valid=['self.g_block_len == 8 or self.g_block_len == 16'], abstract=True,
-                              doc='state of src/raw_<mode>.c: configuration (g_alg, g_key, g_iv = IV or initial counter block, ...), '
-                                  'g_fed = every byte processed so far, g_dir = 0 fresh / 1 encrypting / 2 decrypting'))
-
+# ------------------------------------------------------------------------------------------------ native side
 
 def native_crypt_contract(mode, op):
     """assumed contract of <MODE>_encrypt / <MODE>_decrypt(state, in, out, data_len)"""
@@ -87,8 +83,8 @@ def native_crypt_contract(mode, op):
     else:
         value = '(result == 0 and old(state.g_dir) != %d) ==> bytes(out) == %s[len(old(state.g_fed)):]' % (3 - d, onefn(mode, op, 'state', whole))
     return Contract('native.raw_%s.%s_%s' % (mode, P, op),
-                    params={'state': 'obj:native.Mode', 'in_': 'buffer', 'out': 'bytearray', 'data_len': 'int'},
-                    requires=['state is not None and not state.g_freed',          # live state: no NULL, no use after free
+                    params={'state': 'obj:native.State', 'in_': 'buffer', 'out': 'bytearray', 'data_len': 'int'},
+                    requires=['state is not None and state.g_kind == %d and not state.g_freed' % KIND[mode],   # live state of this mode: no NULL, no use after free
                               'data_len == len(in_)',                              # the length passed is the length of the buffer passed
                               'isinstance(out, bytearray) and len(out) == data_len'],   # writable output of exactly that many bytes
                     result='int', modifies=['out', 'state.g_fed', 'state.g_dir'],
@@ -101,11 +97,82 @@ def native_crypt_contract(mode, op):
 
 def native_stop_contract(mode):
     _, _, _, P = MODES[mode]
-    return Contract('native.raw_%s.%s_stop_operation' % (mode, P), params={'state': 'obj:native.Mode'},
-                    requires=['state is not None and not state.g_freed'],             # no double free
+    return Contract('native.raw_%s.%s_stop_operation' % (mode, P), params={'state': 'obj:native.State'},
+                    requires=['state is not None and state.g_kind == %d and not state.g_freed' % KIND[mode]],             # no double free
                     result='int', modifies=['state.g_freed'], ensures={'freed': 'state.g_freed', 'code': 'result == 0'},
                     assumed='src/raw_%s.c %s_stop_operation frees the mode state and the block cipher it owns (CVC C17)' % (mode, P))
 
+
+START_ARGS = {'ecb': ['cipher', 'pResult'],
+              'cbc': ['cipher', 'iv', 'iv_len', 'pResult'],
+              'ofb': ['cipher', 'iv', 'iv_len', 'pResult'],
+              'cfb': ['cipher', 'iv', 'iv_len', 'segment_len', 'pResult'],
+              'ctr': ['cipher', 'iv', 'iv_len', 'prefix_len', 'counter_len', 'little_endian', 'pResult']}
+START_PRE = {
+    'all': ['cipher is not None and cipher.g_kind == 0 and not cipher.g_freed and not cipher.g_owned',     # a live block cipher that nobody owns yet
+            'pResult.g_ptr is None'],                                                                     # out-parameter: an empty cell
+    'iv': ['iv_len == len(iv)'],                                                                           # the length passed is the length of the buffer passed
+    'ctr': ['0 <= counter_len and counter_len < 2147483648',                                               # bare python ints reach the C `unsigned` unchanged
+            'little_endian == 0 or little_endian == 1'],
+}
+START_ERR = {'ecb': 'False',
+             'cbc': 'iv_len != cipher.g_block_len',
+             'ofb': 'iv_len != cipher.g_block_len',
+             'cfb': 'iv_len != cipher.g_block_len or segment_len == 0 or segment_len > cipher.g_block_len',
+             'ctr': 'iv_len != cipher.g_block_len or counter_len == 0 or counter_len > cipher.g_block_len or cipher.g_block_len < prefix_len + counter_len'}
+
+
+def native_start_model(mode):
+    """<MODE>_start_operation(cipher, [iv, iv_len, ...], pResult): error code iff the geometry is refused (src/raw_<mode>.c), else 0,
+    a fresh mode state in *pResult holding exactly the IV bytes passed, and the block cipher now owned by that state"""
+    names = START_ARGS[mode]
+    P = MODES[mode][3]
+
+    def model(E, st, args, kwargs):
+        if len(args) != len(names) or kwargs:
+            return rawapi.rz(st, TypeError, 'wrong number of arguments')
+        env = dict(zip(names, args))
+        pre = list(START_PRE['all']) + (START_PRE['iv'] if mode != 'ecb' else []) + (START_PRE['ctr'] if mode == 'ctr' else [])
+        rawapi.oblige_pre(E, st, P + '_start_operation', pre, env)
+        from vf.pyvc.interp import Frame
+        fr = Frame(dict(env), None)
+        fr.spec_mode = True
+        st.frames.append(fr)
+        try:
+            t = _as_z3(eval_clause(E, START_ERR[mode], st))
+        finally:
+            st.frames.pop()
+        outs = []
+        err, ok = E.split(st, t)
+        if err is not None:
+            r = E.fresh_int('err')
+            err.assume(r.t != 0)
+            outs += val(err, r)
+        if ok is not None:
+            cipher, cell = env['cipher'], env['pResult']
+            ch = ok.heap[cipher.oid]
+            kw = dict(g_kind=KIND[mode], g_alg=ch.fields['g_alg'], g_impl=ch.fields['g_impl'], g_key=ch.fields['g_key'],
+                      g_block_len=ch.fields['g_block_len'])
+            if mode != 'ecb':
+                data = rawapi.buf_data(ok, env['iv'])
+                kw['g_iv'] = data if isinstance(data, bytes) else SBytes(zbytes(data), 'bytes')
+            if mode == 'cfb':
+                kw['g_seg'] = env['segment_len']
+            if mode == 'ctr':
+                le = env['little_endian']
+                kw.update(g_prefix_len=env['prefix_len'], g_counter_len=env['counter_len'],
+                          g_le=le if isinstance(le, (bool, SBool)) else mk_bool(zint(le) != 0))
+            ref = cf.new_state(ok, **kw)
+            ch.fields['g_owned'] = True
+            ok.writes.append((cipher.oid, 'g_owned'))
+            ok.heap[cell.oid].fields['g_ptr'] = ref
+            ok.writes.append((cell.oid, 'g_ptr'))
+            outs += val(ok, 0)
+        return outs
+    return model
+
+
+# ------------------------------------------------------------------------------------------------ Python side
 
 def fsm_states():
     from spec import fsm
@@ -116,28 +183,39 @@ def next_type():
     return '|'.join('list(%s)' % ','.join("const:'%s'" % m for m in s) for s in fsm_states())
 
 
-def class_contract(mode):
-    """the Python mode object: a live native state behind a SmartPointer, `_next` in a reachable automaton state and
-    consistent with the direction of the native chaining state"""
+def class_fields(mode):
     fields = {'_state': 'obj:' + SP, 'block_size': 'int[8..16]'}
-    P = 'self._state._raw_pointer'
-    valid = ['not %s.g_freed' % P, 'self.block_size == %s.g_block_len' % P]
     if mode != 'ecb':
         fields['_next'] = next_type()
-        valid += ["('decrypt' not in self._next) ==> %s.g_dir != 2" % P,
-                  "('encrypt' not in self._next) ==> %s.g_dir != 1" % P,
-                  "('encrypt' in self._next and 'decrypt' in self._next) ==> (%s.g_dir == 0 and %s.g_fed == b'')" % (P, P)]
     if mode in ('cbc', 'cfb', 'ofb'):
         fields['iv'] = 'bytes'
         fields['IV'] = 'bytes'
-        valid += ['self.iv == %s.g_iv' % P, 'self.IV == self.iv', 'len(self.iv) == self.block_size']
     if mode == 'ctr':
         fields['nonce?'] = 'bytes'
+    return fields
+
+
+def class_valid(mode):
+    """a live native state of this mode behind the SmartPointer, `_next` in a reachable automaton state and consistent
+    with the direction of the native chaining state; iv/nonce attributes equal to what the native state was started with"""
+    P = 'self._state._raw_pointer'
+    valid = ['%s is not None and %s.g_kind == %d and not %s.g_freed' % (P, P, KIND[mode], P), 'self.block_size == %s.g_block_len' % P]
+    if mode != 'ecb':
+        valid += ['self._next in (%s)' % ', '.join(repr(list(s)) for s in fsm_states()) if False else
+                  "len(self._next) >= 1 and (len(self._next) == 2) == ('encrypt' in self._next and 'decrypt' in self._next)",
+                  "('decrypt' not in self._next) ==> %s.g_dir != 2" % P,
+                  "('encrypt' not in self._next) ==> %s.g_dir != 1" % P,
+                  "('encrypt' in self._next and 'decrypt' in self._next) ==> (%s.g_dir == 0 and %s.g_fed == b'')" % (P, P)]
+    if mode in ('cbc', 'cfb', 'ofb'):
+        valid += ['self.iv == %s.g_iv' % P, 'self.IV == self.iv', 'len(self.iv) == self.block_size']
+    if mode == 'cfb':
+        valid += ['1 <= %s.g_seg and %s.g_seg <= self.block_size' % (P, P)]
+    if mode == 'ctr':
         valid += ['len(%s.g_iv) == self.block_size' % P,
-                  '%s.g_prefix_len + %s.g_counter_len <= self.block_size' % (P, P),
+                  '1 <= %s.g_counter_len and 0 <= %s.g_prefix_len and %s.g_prefix_len + %s.g_counter_len <= self.block_size' % (P, P, P, P),
                   'hasattr(self, "nonce") == (%s.g_prefix_len + %s.g_counter_len == self.block_size)' % (P, P),
                   'hasattr(self, "nonce") ==> self.nonce == %s.g_iv[:%s.g_prefix_len]' % (P, P)]
-    return ClassContract(qual(mode), fields=fields, valid=valid)
+    return valid
 
 
 def crypt_contract(mode, op, variant='rw'):
@@ -154,10 +232,10 @@ def crypt_contract(mode, op, variant='rw'):
         value = '%s == %s[len(old(%s.g_fed)):]' % (produced, onefn(mode, op, P, whole), P)
     raises = {}
     if variant == 'ro':
-        params = {data: 'buffer', 'output': 'bytes|memoryview'}
-        raises['TypeError'] = ('iff', 'True')
-        return Contract(qual(mode, op), params=params, requires=[SIZE_T % ('len(%s)' % data)], raises=raises, modifies=None,
-                        ensures={'unreachable': 'False'})
+        # a read-only output buffer is refused (after the automaton has already moved: see the note at the end of this file)
+        return Contract(qual(mode, op), params={data: 'buffer', 'output': 'bytes|memoryview'}, requires=[SIZE_T % ('len(%s)' % data)],
+                        raises={'TypeError': ('iff', 'True')}, modifies=None, ensures={'unreachable': 'False'},
+                        on_raise={'TypeError': ['%s.g_fed == old(%s.g_fed) and %s.g_dir == old(%s.g_dir)' % (P, P, P, P)]})
     params = {data: 'buffer', 'output': 'none|bytearray'}
     raises['TypeError'] = ('iff', guard)
     lenbad = '%s and output is not None and len(output) != len(%s)' % (ok, data)
@@ -170,6 +248,7 @@ def crypt_contract(mode, op, variant='rw'):
                                           'spec.modes.ctr_limit(self.block_size, %s.g_counter_len)' % (ok, data, P, data, P))
     ensures = {'value': value,
                'returns': '(output is None) == (result is not None)',
+               'bytes': 'output is None ==> isinstance(result, bytes)',
                'fed': '%s.g_fed == %s' % (P, whole),
                'valid': 'valid(self)'}
     mods = ['output', P + '.g_fed', P + '.g_dir']
@@ -178,30 +257,143 @@ def crypt_contract(mode, op, variant='rw'):
         mods.append('self._next')
     return Contract(qual(mode, op), params=params, requires=[SIZE_T % ('len(%s)' % data)], raises=raises, ensures=ensures,
                     modifies=mods, unchanged_on_raise=['TypeError'], opaque=['spec.modes.ctr_limit'],
-                    on_raise={'ValueError': ['valid(self) or True'], 'OverflowError': ["self._next == ['%s']" % op]} if mode == 'ctr' else {})
+                    on_raise={'OverflowError': ["self._next == ['%s']" % op]} if mode == 'ctr' else {})
 
 
-def registry(mode='cbc', variant='rw', pointee='obj:native.Mode'):
-    reg = base_registry()
-    rawapi.install_glue(reg)
-    native_classes(reg)
-    rawapi.smartpointer_contract(reg, pointee)
+def init_contract(mode, for_call=False):
+    """<X>Mode.__init__(block_cipher, iv[, segment_size]): the native state is started with exactly the bytes of `iv`, the iv
+    attribute is an immutable copy of them, the block cipher is handed over (released from its SmartPointer), the object
+    starts in the initial automaton state"""
+    P = 'self._state._raw_pointer'
+    B = 'block_cipher._raw_pointer'
+    _, _, _, CP = MODES[mode]
+    params = {'block_cipher': 'obj:' + SP}
+    requires = ['%s is not None and %s.g_kind == 0 and not %s.g_freed and not %s.g_owned' % (B, B, B, B), 'valid(%s)' % B]
+    ensures = {'native': '%s.g_kind == %d and %s.g_alg == old(%s.g_alg) and %s.g_key == old(%s.g_key) and %s.g_block_len == old(%s.g_block_len)'
+                         % (P, KIND[mode], P, B, P, B, P, B),
+               'fresh': "%s.g_fed == b'' and %s.g_dir == 0 and not %s.g_freed" % (P, P, P),
+               'handover': 'block_cipher._raw_pointer is None',
+               'destructor': "self._state._destructor.__name__ == '%s_stop_operation'" % CP,
+               'valid': 'valid(self)'}
+    mods = ['block_cipher._raw_pointer.g_owned', 'block_cipher._raw_pointer', 'self._state', 'self.block_size']
+    raises = {}
+    if mode == 'ecb':
+        params['block_cipher'] = 'obj:' + SP
+        requires.append('hasattr(block_cipher, "block_size") and block_cipher.block_size == %s.g_block_len' % B)
+    elif mode == 'ctr':
+        params.update({'initial_counter_block': 'buffer', 'prefix_len': 'int', 'counter_len': 'int', 'little_endian': 'bool'})
+        requires += [SIZE_T % 'len(initial_counter_block)', '0 <= prefix_len and prefix_len <= 9223372036854775807',
+                     '0 <= counter_len and counter_len < 2147483648']
+        raises['ValueError'] = ('iff', 'len(initial_counter_block) != %s.g_block_len or counter_len == 0 or prefix_len + counter_len > len(initial_counter_block)' % B)
+        ensures.update({'icb': '%s.g_iv == bytes(initial_counter_block)' % P,
+                        'layout': '%s.g_prefix_len == prefix_len and %s.g_counter_len == counter_len and %s.g_le == little_endian' % (P, P, P),
+                        'nonce': 'hasattr(self, "nonce") == (len(initial_counter_block) == prefix_len + counter_len)',
+                        'nonce_value': 'hasattr(self, "nonce") ==> (self.nonce == bytes(initial_counter_block)[:prefix_len] and isinstance(self.nonce, bytes))',
+                        'block_size': 'self.block_size == len(initial_counter_block)'})
+        mods += ['self.nonce', 'self._next']
+    else:
+        params['iv'] = 'buffer'
+        requires.append(SIZE_T % 'len(iv)')
+        bad = 'len(iv) != %s.g_block_len' % B
+        if mode == 'cfb':
+            params['segment_size'] = 'int'
+            bad += ' or segment_size %% %d == 0 or segment_size %% %d > %s.g_block_len' % (TWO64, TWO64, B)
+            ensures['segment'] = '%s.g_seg == segment_size %% %d' % (P, TWO64)
+        raises['ValueError'] = ('iff', bad)
+        ensures.update({'iv': 'self.iv == bytes(iv) and self.IV == self.iv and isinstance(self.iv, bytes)',
+                        'native_iv': '%s.g_iv == bytes(iv)' % P,
+                        'block_size': 'self.block_size == len(iv)'})
+        mods += ['self.iv', 'self.IV', 'self._next']
+    if mode != 'ecb':
+        ensures['next'] = "len(self._next) == 2 and 'encrypt' in self._next and 'decrypt' in self._next"
+    if for_call:
+        del ensures['destructor']       # (the destructor is an opaque value for callers)
+    return Contract(qual(mode, '__init__'), params=params, requires=requires, raises=raises, ensures=ensures, modifies=mods,
+                    sets={'block_cipher._raw_pointer': 'None'}, options={'assume_valid': False})
+
+
+def factory_contract(mode, name):
+    """_create_<mode>_cipher(factory, **kwargs) for factory = Crypto.Cipher.<name>: parameter handling in the documented order,
+    the iv attribute equals the IV passed (iv= or IV=) or a generated one of block size, and is what the native state got"""
+    bs, alg = cf.BLOCK[name], cf.ALG[name]
+    opt = [('key', ['bytes'])]
+    if mode != 'ecb':
+        opt += [('iv', list(cf.KEYT)), ('IV', ['bytes'])]
+    if mode == 'cfb':
+        opt += [('segment_size', ['int'])]
+    opt += [('bogus', ['int'])]
+    shapes = cf.dict_shapes([], opt)
+    has_key = "'key' in kwargs"
+    keyok = "(%s and spec.modes.key_len_ok(%d, len(kwargs['key'])))" % (has_key, alg)
+    if mode == 'ecb':
+        both, ivbad = 'False', 'False'
+    else:
+        both = "('iv' in kwargs and 'IV' in kwargs)"
+        ivbad = "(('IV' in kwargs and len(kwargs['IV']) != %d) or ('iv' in kwargs and len(kwargs['iv']) != %d))" % (bs, bs)
+    segbad = "('segment_size' in kwargs and not spec.modes.cfb_segment_ok(kwargs['segment_size'], %d))" % bs if mode == 'cfb' else 'False'
+    # which exception wins when several parameters are wrong at once is not documented: TypeError only for a TypeError-worthy
+    # fault (missing key, both iv and IV, unknown parameter), ValueError only for a ValueError-worthy one (key / IV / segment
+    # length), and no fault at all on normal return
+    tfault = "(not %s or %s or 'bogus' in kwargs)" % (has_key, both)
+    vfault = '(%s and (not %s or %s or %s))' % (has_key, keyok, ivbad, segbad)
+    raises = {'TypeError': ('only_if', tfault), 'ValueError': ('only_if', vfault)}
+    P = 'result._state._raw_pointer'
+    ensures = {'accepted': 'old(not %s and not %s)' % (tfault, vfault),
+               'key': "%s.g_key == old(bytes(kwargs['key'])) and %s.g_alg == %d" % (P, P, alg),
+               'block_size': 'result.block_size == %d' % bs,
+               'valid': 'valid(result)'}
+    if mode != 'ecb':
+        ensures.update({'iv': "(old('iv' in kwargs) ==> result.iv == old(bytes(kwargs['iv']))) and (old('IV' in kwargs) ==> result.iv == old(bytes(kwargs['IV'])))",
+                        'iv_generated': "not old('iv' in kwargs or 'IV' in kwargs) ==> result.iv == sys_tape(0, %d)" % bs,     # base.py entropy tape
+                        'iv_len': 'len(result.iv) == %d' % bs,
+                        'native_iv': '%s.g_iv == result.iv' % P})
+    if mode == 'cfb':
+        ensures['segment'] = "%s.g_seg * 8 == old(kwargs.get('segment_size', 8))" % P
+    return Contract(qual(mode, '<factory>'), params={'factory': 'module:Crypto.Cipher.' + name, 'kwargs': shapes}, raises=raises,
+                    ensures=ensures, modifies=['kwargs'], opaque=['spec.modes.key_len_ok'])
+
+
+def install_mode_lib(reg, mode):
     m, cls, lib, P = MODES[mode]
     rawapi.install_lib(reg, C + m + '.' + lib, 'native.raw_' + mode,
-                       {P + '_encrypt': native_crypt_contract(mode, 'encrypt'),
+                       {P + '_start_operation': native_start_model(mode),
+                        P + '_encrypt': native_crypt_contract(mode, 'encrypt'),
                         P + '_decrypt': native_crypt_contract(mode, 'decrypt'),
                         P + '_stop_operation': native_stop_contract(mode)})
-    reg.add(class_contract(mode))
-    for op in ('encrypt', 'decrypt'):
-        reg.add(crypt_contract(mode, op, variant))
+
+
+def registry(mode='cbc', variant='rw', name='AES'):
+    """variant: 'rw' / 'ro' = encrypt, decrypt with a writable / read-only output;  'init' = __init__ (self starts empty)"""
+    reg = base_registry()
+    rawapi.install_glue(reg)
+    cf.native_classes(reg)
+    rawapi.smartpointer_contract(reg, 'obj:native.State')
+    install_mode_lib(reg, mode)
+    reg.add(ClassContract(qual(mode), fields={} if variant == 'init' else class_fields(mode), valid=class_valid(mode)))
+    if variant == 'factory':
+        reg.add(init_contract(mode, for_call=True))
+        reg.add(cf.base_cipher_contract(name, for_call=True))
+        reg.add(factory_contract(mode, name))
+    elif variant == 'init':
+        # the block cipher's SmartPointer of EcbMode.__init__ carries the extra attribute the ECB factory function sets
+        if mode == 'ecb':
+            reg.classes[SP].fields['block_size?'] = 'int[8..16]'
+        reg.add(init_contract(mode))
+    else:
+        for op in ('encrypt', 'decrypt'):
+            reg.add(crypt_contract(mode, op, variant))
     return reg
 
 
 def units(prop, tier):
     from vf.pyunit import pyvc_unit
     out = []
-    if prop in ('C02', 'C09', 'C10', 'C17', 'C19'):
-        for mode in ('ecb', 'cbc', 'cfb', 'ofb'):
+    for mode in ('ecb', 'cbc', 'cfb', 'ofb'):
+        if prop in ('C02', 'C09', 'C10', 'C17', 'C19'):
             for op in ('encrypt', 'decrypt'):
+                if prop == 'C10' and mode == 'ecb':
+                    continue
                 out.append(pyvc_unit(prop, 'mode.%s.%s' % (mode, op), lambda mode=mode: registry(mode), [qual(mode, op)]))
+        if prop in ('C02', 'C17'):
+            out.append(pyvc_unit(prop, 'mode.%s.init' % mode, lambda mode=mode: registry(mode, 'init'), [qual(mode, '__init__')]))
     return out
